@@ -850,6 +850,13 @@ def replay(ctx, case):
             print("KMP mirror model:", m[0])
             tt = enc.dec_res(t)
             print("KMP failure table of the mirror model:", [v - 1 for v in tt[1]] if tt[0] == "ok" else tt)
+    if c.kind == "from_finite_language":
+        sy = enc.SymMap(c.sigma, extra="".join(c.kw["lang"]))
+        fp = [list(range(sy.n)), [sy.word(w) for w in c.kw["lang"]], c.kw["as_partial"]]
+        m = ctx.driver.batch([(15, OP_FL, enc.tree([fp, []]))])[0]
+        print("mirror model of the construction:", m[0])
+        nm = enc.dec_res(m[2])
+        print("its state names (state i = i-th prefix):", [sy.unword(w) for w in nm[1]] if nm[0] == "ok" else nm)
     known_finding_reproducer(ctx)
     Runner(ctx).run_cases([c])
     print("replay:", "VIOLATION reproduced" if ctx.violations else "no disagreement")
